@@ -4,7 +4,7 @@ NOT_BUILT_REASON = ("check not built yet in this round (design in DESIGN.md §5)
 
 _NOTE = ("Trusted base: CPython ast of /venv/bin/python 3.12, the checker code in /verif/sa, and the "
          "source files of the installed dependencies it reads (digests in evidence). Assumes Python "
-         "semantics of the constructs it models (92 conformance cases against CPython in tools/evalconf.py; generators, "
+         "semantics of the constructs it models (95 conformance cases against CPython in tools/evalconf.py; generators, "
          "class statements, descriptor / special-method protocols included); an evaluation that outgrows 6 GB or 3000 s "
          "ends as analysis-broken (exit 2); "
          "decides only the clauses named in the level text. Every abstract input is built through the model "
